@@ -522,6 +522,15 @@ GRAPH_WITNESSES = [
     ("self-loop", {"X": (["f"], ["f"])}, ["X"], set()),
     ("2-cycle next to a healthy chain (not reachable from its endpoint)", {"P": ([], ["p"]), "Q": (["p"], ["q"]), "R": (["s1"], ["s2"]), "S": (["s2"], ["s1"])}, ["P", "Q", "R", "S"], set()),
     ("3-cycle behind a tail", {"A": (["c"], ["a"]), "B": (["a"], ["b"]), "C": (["b"], ["c"]), "T": (["c"], ["t"])}, ["T", "A", "B", "C"], set()),
+    # a consumer of BOTH members of a 2-cycle, defined first (an explicit-stack search that marks nodes when pushed sees both members 'queued' and no back edge)
+    ("consumer of both members of a 2-cycle, consumer first", {"R": (["al", "ix"], ["rep"]), "Al": (["ix"], ["al"]), "Ix": (["al"], ["ix"])}, ["R", "Al", "Ix"], set()),
+    ("consumer of both members of a 2-cycle, other member order", {"R": (["ix", "al"], ["rep"]), "Al": (["ix"], ["al"]), "Ix": (["al"], ["ix"])}, ["R", "Ix", "Al"], set()),
+    ("4-cycle with a chord, entered from outside", {"E": (["a", "c"], ["e"]), "A": (["d"], ["a"]), "B": (["a"], ["b"]), "C": (["b"], ["c"]), "D": (["c", "a2"], ["d"]), "A2": ([], ["a2"])},
+     ["E", "A", "B", "C", "D", "A2"], set()),
+    # two producers of one file that are not neighbours: several outputs each, another target in between
+    ("two producers, the shared file first of several outputs", {"A": ([], ["shared", "a.log"]), "B": ([], ["shared", "b.log"])}, ["A", "B"], set()),
+    ("two producers with an unrelated target between them", {"X": ([], ["f"]), "M": ([], ["m"]), "Y": ([], ["f"])}, ["X", "M", "Y"], set()),
+    ("two producers, shared file last and first", {"X": ([], ["x1", "f"]), "Y": ([], ["f", "y1"]), "Z": (["f"], ["z"])}, ["Z", "X", "Y"], set()),
 ]
 
 
@@ -1861,12 +1870,31 @@ def clean_command_witness(ctx):
     return n, diffs, None
 
 
-def eval_touch_command(ctx, targets=(), project=None, reverse=False):
+def eval_touch_command(ctx, targets=(), project=None, reverse=False, disk="empty"):
+    """disk: 'empty' (no output exists yet) or 'uptodate' (every output exists, each target's outputs newer than its dependencies')."""
     fn = ctx.index.func("gwf.plugins.touch:touch")
-    T, graph, hooks = _witness_graph(ctx, project or TOUCH_PROJECT, reverse)
+    proj = project or TOUCH_PROJECT
+    T, graph, hooks = _witness_graph(ctx, proj, reverse)
     events = []
     store = Obj("spec_hashes")
+    depth_of = {}
+
+    def depth(n_):
+        if n_ not in depth_of:
+            depth_of[n_] = 1 + max([depth(d_) for d_ in proj[n_][0]] or [0])
+        return depth_of[n_]
+    mtime = {p_: float(depth(n_)) for n_ in proj for p_ in proj[n_][1]}
+
+    def h_exists(recv, p_, *a):
+        return disk == "uptodate" and str(p_) in mtime
+
+    def h_changed(recv, p_, *a):
+        if disk == "uptodate" and str(p_) in mtime:
+            return mtime[str(p_)]
+        raise Raised("FileNotFoundError", str(p_))
     hooks.update({
+        "attr:exists": h_exists, "attr:changed_at": h_changed, "os.path.exists": lambda p_: h_exists(None, p_), "os.path.getmtime": lambda p_: h_changed(None, p_),
+        "attr:has_changed": lambda recv, t: None,
         "pathlib.Path": lambda *a: PathTok("/".join(str(x) for x in a)),
         "getattr:parent": lambda o: PathTok(str(o).rsplit("/", 1)[0] or "/"),
         "attr:mkdir": lambda recv, *a, **k: events.append(("mkdir", str(recv), dict(k))),
@@ -1899,9 +1927,12 @@ def touch_command_witness(ctx):
             ("gwf touch [project with shortcut edges]", (), set(TOUCH_PROJECT2), TOUCH_PROJECT2), ("gwf touch Stats [shortcut edges]", ("Stats",), {"Genome", "Index", "Map", "Stats"}, TOUCH_PROJECT2),
             ("gwf touch Top Map [shortcut edges]", ("Top", "Map"), {"Zed", "Mid", "Top", "Genome", "Index", "Map"}, TOUCH_PROJECT2)]
     diffs, n = [], 0
-    rows = [(lab + (" [sets iterate in reverse]" if rev else ""), tg, cone, proj, rev) for (lab, tg, cone, proj) in rows for rev in (False, True)]
-    for label, targets, cone, WITNESS_PROJECT, rev in rows:
-        out, err = eval_touch_command(ctx, targets, WITNESS_PROJECT, rev)
+    rows = [(lab + (" [sets iterate in reverse]" if rev else ""), tg, cone, proj, rev, "empty") for (lab, tg, cone, proj) in rows for rev in (False, True)]
+    # every file is already in order (a finished project on which spec hashing is switched on afterwards): the current specs must still be recorded
+    rows += [("gwf touch [all files already in order]", (), {"A", "B", "S", "C", "All", "Other"}, TOUCH_PROJECT, False, "uptodate"),
+             ("gwf touch B [all files already in order]", ("B",), {"A", "B"}, TOUCH_PROJECT, False, "uptodate")]
+    for label, targets, cone, WITNESS_PROJECT, rev, disk in rows:
+        out, err = eval_touch_command(ctx, targets, WITNESS_PROJECT, rev, disk)
         if err:
             return n, diffs, err
         n += 1
@@ -1912,6 +1943,15 @@ def touch_command_witness(ctx):
         touched = [e[1] for e in ev if e[0] == "touch"]
         writes = [e for e in ev if e[0] == "open" and any(ch in e[2] for ch in "wa+x")]
         want = [p for nme in WITNESS_PROJECT if nme in cone for p in WITNESS_PROJECT[nme][1]]
+        if disk == "uptodate":
+            # touching files that are already in order is allowed, not required - but nothing outside the cone, and the hashes are recorded all the same
+            if not set(touched) <= set(want):
+                diffs.append(f"`{label}` touches {sorted(set(touched) - set(want))} outside the cone {sorted(cone)}")
+            upd = [e[1] for e in ev if e[0] == "update"]
+            if sorted(upd) != sorted(cone):
+                diffs.append(f"`{label}` records the spec hashes of {sorted(upd)}, expected those of the cone {sorted(cone)}: a target whose files are in order is skipped "
+                             "before its current spec is recorded, so with hashing on it is still reported as changed after `gwf touch`")
+            continue
         if sorted(touched) != sorted(want):
             diffs.append(f"`{label}` touches {sorted(touched)}; the property prescribes exactly the outputs of the cone {sorted(cone)}: {sorted(want)}")
             continue
@@ -3072,7 +3112,7 @@ def workers_command_witness(ctx):
 
 
 # --------------------------------------------------------------------------- `gwf info` as a whole command
-def eval_info_command(ctx, targets=(), fmt="json"):
+def eval_info_command(ctx, targets=(), fmt="json", graph_error=None):
     """`gwf info [targets]` on the witness project: the JSON document printed (json format) or the printed lines (pretty)."""
     fn = ctx.index.func("gwf.plugins.info:info")
     T, graph, hooks = _witness_graph(ctx)
@@ -3083,6 +3123,10 @@ def eval_info_command(ctx, targets=(), fmt="json"):
         "click.echo": lambda *a, **k: lines.append(a[0] if a else ""), "click.secho": lambda *a, **k: lines.append(a[0] if a else ""),
         "click.format_filename": lambda v, *a, **k: v,
     })
+    if graph_error:
+        def h_fail(*a, **k):
+            raise Raised(graph_error, "graph construction failed")
+        hooks["gwf.core.Graph.from_targets"] = h_fail
     interp = PureInterp(ctx, hooks=hooks)
     interp.max_depth = 20
     try:
@@ -3123,6 +3167,16 @@ def info_command_witness(ctx):
             gd, gt = sorted(rec.get("dependencies", [])), sorted(rec.get("dependents", []))
             if gd != deps[t] or gt != dependents[t]:
                 diffs.append(f"`{label}`: target {t} is reported with dependencies {gd} and dependents {gt}; the graph has {deps[t]} and {dependents[t]}")
+    # a workflow whose graph cannot be built (missing source file, two producers, cycle): `gwf info` fails with that error - it never prints relations it did not compute
+    for kind in ("UnresolvedInputError", "FileProvidedByMultipleTargetsError", "CircularDependencyError"):
+        out, err = eval_info_command(ctx, (), graph_error=kind)
+        if err:
+            return n, diffs, err
+        n += 1
+        if out.get("raised") != kind:
+            shown = sorted(out["docs"][0]) if out.get("docs") and hasattr(out["docs"][0], "keys") else out.get("raised")
+            diffs.append(f"when the graph cannot be built ({kind}) `gwf info` does not end with that error but reports {shown}: relations (here: none at all) that are not "
+                         "the ones the shared file paths induce, with exit status 0")
     return n, diffs, None
 
 
